@@ -27,7 +27,7 @@ PROP = {'gen': [],
  'level_note': 'proof of the modelled state machine + scripted correspondence; partial. Trusted: Coq kernel + vm_compute; hand-written '
                'model IO/PollLoop.v; assumption select_level_triggered (select reports exactly the descriptors that are ready when it '
                'is called); signal-hook semantics as read from its source (pipe drained, flags in signal-number order); the decoder is '
-               'abstracted to tokens (C02/C03). Defects found and fixed: de62e95, 68e120b, 1cf853f+afe2796 (wake only), adc719b, ab83088, 58259f6, cc7dfd1 (failing copy of the output at drop), e293376 (escape sequence resize '
+               'abstracted to tokens (C02/C03). Defects found and fixed: de62e95, 68e120b, 1cf853f+afe2796 (wake only), adc719b, ab83088, 58259f6, cc7dfd1 (failing copy of the output at drop), e293376 + 2decf80 (escape sequence resize '
                'mode, which the model does not cover: pty scenario only); domain assumptions: the peer eventually reads (closing sequence; every event other '
                'than Wake under poll(None) with output queued). Timing checks of the pty sessions allow scripted wait * 1.25 + 250 ms; a late session is run again (twice at most, 20 s budget) and, when a timing probe shows the host is overloaded, judged by order and content of the poll results, the 2 s watchdog and the restored settings only. No axioms.',
  'technique': 'Coq proof (invariants of a transition system under arbitrary schedules) + scripted pty correspondence; partial',
@@ -53,7 +53,7 @@ PROP = {'gen': [],
                  'no key / Resize / quit error until the peer reads again (a finite timeout returns at the timeout); only a wake request is delivered at once. '
                  'Applications that must react to signals under a stalled terminal have to poll with a timeout or wake themselves',
                  'iteration bounds (|pending|+1, +2) do not count iterations in which select fails with EINTR',
-                 'escape sequence resize mode (size queried from the terminal on SIGWINCH) is outside the model; it is run on the pty only',
+                 'escape sequence resize mode (size queried from the terminal on SIGWINCH) is outside IO/PollLoop.v; it has a model of its own (IO/SizeQuery.v: whole queue items, one chunk each, answers in flight as an oracle queue; no hang-up, write error or silent peer) and pty scenarios',
                  'wake(): the one-byte write on the non-blocking waker socket succeeds or fails with EAGAIN (EINTR, also swallowed by the '
                  'code, does not occur there)',
                  'arrival order is per source; events of different sources ready in the same iteration are queued signals, waker, input']}
